@@ -64,6 +64,7 @@ type CheckCfg struct {
 	Workers    int               `json:"workers"`
 	Also       []string          `json:"also"`   // further harness ids run as part of this check (their classes count for this property)
 	Parent     string            `json:"parent"` // set in a sub-harness: the property id it reports for
+	GoGates    []string          `json:"go_gates"` // globs of files whose `go` statements get a gate at goroutine start
 	Selects    []string          `json:"selects"` // globs of files whose multi-case selects are determinised
 	NetShim    []string          `json:"netshim"` // globs of files whose "net" import is swapped
 	TimeShim   []string          `json:"timeshim"`
@@ -222,6 +223,12 @@ func build(cfg *CheckCfg) (*buildOut, error) {
 			swapr[f] = true
 		}
 	}
+	gor := map[string]bool{}
+	for _, g := range cfg.GoGates {
+		for _, f := range glob(g) {
+			gor[f] = true
+		}
+	}
 	selr := map[string]bool{}
 	for _, g := range cfg.Selects {
 		for _, f := range glob(g) {
@@ -236,7 +243,7 @@ func build(cfg *CheckCfg) (*buildOut, error) {
 	}
 	seen := map[string]bool{}
 	var files []string
-	for _, g := range append(append(append(append([]string{}, cfg.Instrument...), cfg.NetShim...), cfg.MapRanges...), cfg.Selects...) {
+	for _, g := range append(append(append(append([]string{}, cfg.Instrument...), cfg.NetShim...), cfg.MapRanges...), append(append([]string{}, cfg.Selects...), cfg.GoGates...)...) {
 		for _, f := range glob(g) {
 			if !seen[f] {
 				seen[f] = true
@@ -262,7 +269,7 @@ func build(cfg *CheckCfg) (*buildOut, error) {
 		if err != nil {
 			return nil, err
 		}
-		out, st, err := instrument(f, src, instOpts{net: netshim[f], time: timeshim[f], mapRanges: mapr[f], mapSites: sites[f], selects: selr[f], swap: swapr[f], extra: cfg.Extra})
+		out, st, err := instrument(f, src, instOpts{net: netshim[f], time: timeshim[f], mapRanges: mapr[f], mapSites: sites[f], selects: selr[f], swap: swapr[f], goGates: gor[f], extra: cfg.Extra})
 		if err != nil {
 			return nil, fmt.Errorf("instrument %s: %v", f, err)
 		}
